@@ -287,7 +287,13 @@ fn gen_ref(r: &mut Rng, cx: &Ctx) -> Value {
 /// a schema inside the supported fragment (up to the null type when allowed)
 pub fn gen_schema(r: &mut Rng, depth: usize, cx: &Ctx) -> Value {
     let leaf = depth >= 3;
-    let k = if leaf { r.below(60) } else { r.below(100) };
+    let k = if leaf {
+        r.below(60)
+    } else if depth == 0 && r.chance(1, 2) {
+        60 + r.below(40)
+    } else {
+        r.below(100)
+    };
     let mut m = match k {
         0..=13 => gen_string(r),
         14..=27 => gen_integer(r),
@@ -983,8 +989,11 @@ pub fn instances(r: &mut Rng, s: &Value, defs: &[(String, Value)], max: usize) -
         all.push(v);
     }
     r.shuffle(&mut muts);
+    for c in [Value::Null, json!(0), json!(""), json!({})] {
+        all.push(c);
+    }
     all.extend(muts);
-    for c in [Value::Null, json!(true), json!(0), json!(""), json!([]), json!({})] {
+    for c in [json!(true), json!([])] {
         all.push(c);
     }
     let mut seen = std::collections::HashSet::new();
